@@ -820,6 +820,14 @@ def i_bit_length(I, a, k):
 
 
 # ============================================================================ Val (dynamic JSON-like values)
+_other_hashable = z3.Function("vother_hashable", z3.IntSort(), z3.BoolSort())
+
+
+def _hashable(t):
+    """lists and dicts are unhashable, None / bool / int / float / str are hashable, other objects unknown"""
+    return z3.And(z3.Not(VAL.is_VList(t)), z3.Not(VAL.is_VDict(t)), z3.Or(z3.Not(VAL.is_VOther(t)), _other_hashable(VAL.vo(t))))
+
+
 def _tags(t):
     return dict(none=VAL.is_VNone(t), bool=VAL.is_VBool(t), int=VAL.is_VInt(t), str=VAL.is_VStr(t), float=VAL.is_VFloat(t),
                 list=VAL.is_VList(t), dict=VAL.is_VDict(t), other=VAL.is_VOther(t))
@@ -868,7 +876,7 @@ def val_contains(I, container, x):
     if not I.pure and I.st.branch(z3.Not(z3.Or(tg["list"], tg["dict"], tg["str"]))):
         I.raise_builtin("TypeError", "argument is not iterable")
     xv = I.ops.to_val(x)
-    if not I.pure and I.st.branch(z3.And(tg["dict"], z3.Not(vhashable(xv)))):
+    if not I.pure and I.st.branch(z3.And(tg["dict"], z3.Not(_hashable(xv)))):
         I.raise_builtin("TypeError", "unhashable type")
     f = z3.Function("vlist_has", z3.IntSort(), VAL, z3.BoolSort())
     fs = z3.Function("str_contains", z3.IntSort(), z3.IntSort(), z3.BoolSort())
@@ -888,7 +896,7 @@ def val_subscript(I, obj, key):
     if I.st.branch(z3.Not(z3.Or(tg["list"], tg["dict"], tg["str"]))):
         I.raise_builtin("TypeError", "object is not subscriptable")
     if I.st.branch(tg["dict"]):
-        if I.st.branch(z3.Not(vhashable(kv))):
+        if I.st.branch(z3.Not(_hashable(kv))):
             I.raise_builtin("TypeError", "unhashable type")
         has = z3.And(VAL.is_VStr(kv), vdict_has(VAL.vd(t), VAL.vs(kv)))
         if I.st.branch(z3.Not(has)):
@@ -1045,7 +1053,7 @@ def v_get(I, a, k):
     if back is not None:
         return d_get(I, [back, key] + list(a[2:]), k)
     kv = I.ops.to_val(key)
-    if not I.pure and I.st.branch(z3.Not(vhashable(kv))):
+    if not I.pure and I.st.branch(z3.Not(_hashable(kv))):
         I.raise_builtin("TypeError", "unhashable type")
     has = z3.And(VAL.is_VStr(kv), vdict_has(VAL.vd(t), VAL.vs(kv)))
     got = SVal(vdict_get(VAL.vd(t), VAL.vs(kv)))
